@@ -17,8 +17,8 @@ import time
 import vlib
 from vlib import coq_str, coq_list, canon_hash
 
-TARGETS = ["iface_mapped", "bilinear", "vector3d", "logical", "join", "union", "equation", "norm", "polar", "shared_bc"]
-NPERM = {"iface_mapped": 2, "bilinear": 6, "vector3d": 6, "logical": 2, "join": 4, "union": 24, "equation": 24, "norm": 6, "polar": 1,
+TARGETS = ["analytic", "iface_mapped", "bilinear", "vector3d", "logical", "join", "union", "equation", "norm", "polar", "shared_bc"]
+NPERM = {"analytic": 1, "iface_mapped": 2, "bilinear": 6, "vector3d": 6, "logical": 2, "join": 4, "union": 24, "equation": 24, "norm": 6, "polar": 1,
          "shared_bc": 1}
 # (class, name) -> attribute digest used by each target: what a colliding history must differ from
 TARGET_OBJS = {
@@ -31,6 +31,9 @@ TARGET_OBJS = {
     "norm": [("Domain", "Omega", "dim=2"), ("Space", "V", "scalar,dim=2,kind=None")],
     "polar": [("Mapping", "M", "dim=2")],
     "shared_bc": [],
+    # the parameters of an analytical mapping are part of its identity (they are in its expressions): the key carries them
+    "analytic": [("AMapping", "PolarMapping:M:c1=0,c2=0,rmax=3,rmin=1", "dim=2"), ("Patch", "A", "dim=2"),
+                 ("Space", "V", "scalar,dim=2,kind=h1")],
     "iface_mapped": [("Patch", "A", "dim=2"), ("Patch", "B", "dim=2"), ("Patch", "C", "dim=2")],
 }
 
@@ -85,6 +88,16 @@ def gen_history(rng, target, colliding):
     for k in range(n):
         kind = rng.choice(["domain", "space", "form", "mapping", "join", "union"])
         sfx = "_h%d" % k
+        if target == "analytic" and not colliding and rng.random() < 0.45:
+            # same class, same NAME, same patch / space / function names as the target, other parameter values
+            params = {"c1": 0, "c2": 0, "rmin": rng.choice([1, 2]), "rmax": rng.choice([2, 4, 5])}
+            if params["rmin"] >= params["rmax"]:
+                params["rmax"] = params["rmin"] + 1
+            key = ",".join("%s=%s" % kv for kv in sorted(params.items()))
+            ops.append(["amapping", "PolarMapping", "M", params, "A", "V", "u,v"])
+            objs.append(("AMapping", "PolarMapping:M:" + key, "dim=2")); objs.append(("Patch", "A", "dim=2"))
+            objs.append(("Space", "V", "scalar,dim=2,kind=h1"))
+            continue
         dim = rng.choice([1, 2, 3])
         collide = colliding and rng.random() < 0.6
         if kind == "domain":
@@ -170,6 +183,14 @@ def main(run, replay=None):
             clear_at = [j for j in range(len(ops) + 1) if rng.random() < 0.2]
             add(t, ops, clear_at, perm=rng.randrange(NPERM[t]) if rng.random() < 0.3 else 0,
                 hashseed=rng.choice([0] + seeds), cache=rng.random() < 0.8, label="hygienic-history", objs=objs)
+        for i in range(3 if quick else 12):
+            # always present: the analytical target after the same class / name with other parameter values
+            ops, objs = gen_history(rng, "analytic", colliding=False)
+            params = {"c1": 0, "c2": 0, "rmin": 1, "rmax": rng.choice([2, 4, 5])}
+            key = ",".join("%s=%s" % kv for kv in sorted(params.items()))
+            ops.insert(rng.randrange(len(ops) + 1), ["amapping", "PolarMapping", "M", params, "A", "V", "u,v"])
+            objs += [("AMapping", "PolarMapping:M:" + key, "dim=2"), ("Patch", "A", "dim=2"), ("Space", "V", "scalar,dim=2,kind=h1")]
+            add("analytic", ops, [], hashseed=rng.choice([0] + seeds), label="hygienic-history", objs=objs)
         for i in range(n_col):
             t = rng.choice([x for x in TARGETS if TARGET_OBJS[x]])
             ops, objs = gen_history(rng, t, colliding=True)
